@@ -147,3 +147,10 @@ pub open spec fn revision_layout(v: Seq<u8>, mark: Seq<u8>, es: Seq<((u32, u16),
 pub open spec fn doc_layout(d: Document, xt: XrefType, base: nat) -> Seq<u8> {
     revision_layout(str_bytes(d.version), d.binary_mark@, d.objects.entries@, abs_dict(d.trailer), d.max_id, xt, base)
 }
+
+// ---- incremental save (7.5.6): previous bytes unchanged, a newline if they do not end with one, then one more revision
+pub open spec fn inc_newline(prev: Seq<u8>) -> Seq<u8> { if prev.len() > 0 && prev.last() != 0x0au8 { seq![0x0au8] } else { Seq::<u8>::empty() } }
+pub open spec fn inc_prefix(prev: Seq<u8>) -> Seq<u8> { prev + inc_newline(prev) }
+pub open spec fn inc_layout(d: IncrementalDocument) -> Seq<u8> {
+    inc_prefix(d.bytes_documents@) + doc_layout(d.new_document, d.prev_documents.reference_table.cross_reference_type, inc_prefix(d.bytes_documents@).len())
+}
